@@ -16,8 +16,8 @@ from concurrent.futures import ThreadPoolExecutor
 import core
 from props import iface_rpc as common
 
-DEPTH = {"quick": 30, "thorough": 100}
-PER = {"quick": 8, "thorough": 8}
+DEPTH = {"quick": 30, "thorough": 120}
+PER = {"quick": 8, "thorough": 16}
 
 DEVS = {"dict_variant_coercion"}
 
